@@ -23,7 +23,7 @@ from simkit import driver, fleet, mrecipe, srecipe
 PROP = "C17"
 
 TIERS = {
-    "quick": {"sessions": 5, "workers": 3, "single": 36, "multi": 150,
+    "quick": {"sessions": 5, "workers": 3, "single": 36, "multi": 320,
               "budget_s": None},
     "thorough": {"sessions": 400, "workers": 4, "single": 60, "multi": 400,
                  "budget_s": 25 * 60},
